@@ -27,6 +27,10 @@ class Query:
 
     def script(self, asserts=None):
         r = T.Render(self.mode)
+        if asserts is None:
+            ax = T.bits_axioms(self.asserts)
+            if ax:
+                self.asserts = list(self.asserts) + ax
         vs = T.free_vars([a for a in (asserts or self.asserts) if T.is_t(a)])
         return r.script(asserts or self.asserts, get=vs if vs else None), r
 
